@@ -407,3 +407,28 @@ Theorem C12_rm_add_after_reopen :
 Proof. first [exact (@hp_rm_add_after_reopen) | apply (@hp_rm_add_after_reopen) | intros; eapply (@hp_rm_add_after_reopen); eassumption]. Qed.
 
 End HybridReopen.
+
+(* Proofs/HybridHistRbaGen.v: the MBR boot address after the extent assignment is four times the sector of the INITIAL entry, for every history (any number of further entries, sections, platforms, hard-link names, placed or unplaced files). *)
+From PV.Base Require Prim.
+From PV.Gen Require GenConst GenFun.
+From PV.Model Require Names Pack Alloc Codec Eltorito Account AccountLinks AccountBoot Hybrid HybridHist.
+From PV.Proofs Require HybridProofs HybridHistProofs HybridHistWrite HybridHistRba HybridHistRbaGen.
+Section HybridRbaGeneral.
+Import PV.Base.Prim PV.Gen.GenConst PV.Gen.GenFun PV.Model.Names PV.Model.Pack PV.Model.Alloc PV.Model.Codec PV.Model.Eltorito PV.Model.Account PV.Model.AccountLinks PV.Model.AccountBoot PV.Model.Hybrid PV.Model.HybridHist PV.Proofs.HybridProofs PV.Proofs.HybridHistProofs PV.Proofs.HybridHistWrite PV.Proofs.HybridHistRba PV.Proofs.HybridHistRbaGen.
+Local Open Scope Z_scope.
+Theorem C12_mbr_boot_address_is_the_initial_entrys b bt y i0 rest :
+  hy_wf y -> bboot b = Some bt -> binos bt = i0 :: rest -> v_platform_id (c_validation (bcat bt)) = 0 ->
+  ih_rba (hy_ih (p_hy (push b y))) = rba_of b i0 * 4 /\ p_ok (push b y) = true.
+Proof. first [exact (@hh_rba_is_initial_entry_gen) | apply (@hh_rba_is_initial_entry_gen) | intros; eapply (@hh_rba_is_initial_entry_gen); eassumption]. Qed.
+
+Theorem C12_mbr_boot_address_after_every_history ops bt y i0 rest :
+  let s := hrun hinit ops in
+  hhyb s = Some y -> bboot (hb s) = Some bt -> binos bt = i0 :: rest ->
+  v_platform_id (c_validation (bcat bt)) = 0 ->
+  ih_rba (hy_ih (p_hy (push (hb s) y))) = rba_of (hb s) i0 * 4.
+Proof. first [exact (@hh_rba_is_initial_entry_run) | apply (@hh_rba_is_initial_entry_run) | intros; eapply (@hh_rba_is_initial_entry_run); eassumption]. Qed.
+
+Example C12_mbr_boot_address_example : rba_gen_chk (hrun hinit (removelast w_two_names)) = true.
+Proof. first [exact (@hh_rba_gen_example) | apply (@hh_rba_gen_example) | intros; eapply (@hh_rba_gen_example); eassumption]. Qed.
+
+End HybridRbaGeneral.
